@@ -1076,15 +1076,32 @@ func drawLit(t *rapid.T, kind string, bits int, label string, nonzero bool) Lit 
 	}
 	l.Hex = rapid.IntRange(0, 4).Draw(t, label+"-hex") == 0
 	if v.Sign() < 0 {
-		_, mx := minMax(kind, bits)
-		l.Neg = "cast"
-		// -T(k) needs k representable in T.
-		if new(big.Int).Neg(v).Cmp(mx) <= 0 &&
-			rapid.IntRange(0, 2).Draw(t, label+"-neg") == 0 {
-			l.Neg = "unary"
-		}
+		l.Neg = negSpelling(kind, bits, v, rapid.IntRange(0, 5).Draw(t, label+"-neg"))
 	}
 	return l
+}
+
+// negSpelling chooses the spelling of a negative constant: T(-k) ("cast") or
+// -T(k) ("unary", needs k representable in T).  When T(-k) is a known finding
+// for the width class (signature operand/int/<class>/neg) the unary spelling
+// is preferred (5 of 6) so that the search continues behind the finding.
+func negSpelling(kind string, bits int, v *big.Int, pick int) string {
+	_, mx := minMax(kind, bits)
+	if new(big.Int).Neg(v).Cmp(mx) > 0 {
+		return "cast"
+	}
+	col := ev.Get(prop)
+	if col.IsKnown(fmt.Sprintf("operand/%s/%s/neg", kind, widthClass(bits))) &&
+		!col.IsKnown(fmt.Sprintf("operand/%s/%s/uneg", kind, widthClass(bits))) {
+		if pick%6 < 5 {
+			return "unary"
+		}
+		return "cast"
+	}
+	if pick%6 < 2 {
+		return "unary"
+	}
+	return "cast"
 }
 
 func drawRuntime(t *rapid.T, cs *Case) {
